@@ -8,6 +8,7 @@ import Orda.Proofs.RgaFull
 import Orda.Proofs.DocConv
 import Orda.Proofs.DocArr
 import Orda.Proofs.MapNet
+import Orda.Proofs.FlatNetCreate
 namespace Orda.Props.C02
 open Orda
 
@@ -151,5 +152,23 @@ theorem counter_is_the_sum_everywhere (cuid : Nat → String) (n : Nat) (net : M
     (i : Nat) (nd : MNet.Node) (hi : net.nodes[i]? = some nd) :
     nd.r.state = DState.counter (Spec.counter (appliedOps net.log i nd)) :=
   cnet_value_is_spec net h i nd hi
+
+open Orda.FNetC in
+/-- with the creating client and its snapshot operation: the value of EVERY node at EVERY moment is the wrapped sum of the increments
+    among the operations it has applied -/
+theorem counter_is_the_sum_everywhere_created {cuid : Nat → String} {n : Nat} (net : MNet.Net) (h : M.ReachC .counter cuid n net)
+    (i : Nat) (nd : MNet.Node) (hi : net.nodes[i]? = some nd) :
+    nd.r.state = DState.counter (Spec.counter (MNet.appliedOps net.log i nd)) :=
+  created_counter_net_value_is_spec net h i nd hi
+
+open Orda.FNetC in
+/-- … and two map replicas that have applied the same operations answer every read alike, at every moment -/
+theorem map_reads_agree_everywhere_created {cuid : Nat → String} {n : Nat} (net : MNet.Net) (h : M.ReachC .map cuid n net)
+    (i j : Nat) (hi : i < net.nodes.length) (hj : j < net.nodes.length) (mi mj : LwwMap)
+    (hmi : net.nodes[i].r.state = .map mi) (hmj : net.nodes[j].r.state = .map mj) (hso : MNet.SameOps net i j) :
+    (∀ k, mi.get k = mj.get k) ∧ mi.size = mj.size ∧
+    (∀ k, alFind k mi.live = alFind k mj.live) ∧ mi.live.Perm mj.live ∧ MNet.sortedView mi = MNet.sortedView mj ∧
+    MNet.jsonView mi = MNet.jsonView mj :=
+  created_map_net_same_operations_same_reads net h i j hi hj mi mj hmi hmj hso
 
 end Orda.Props.C02
